@@ -61,6 +61,11 @@ import urllib.request
 from email.message import Message
 
 
+# html.parser.HTMLParseError is gone since Python 3.5, malformed markup the
+# parser cannot skip is reported by an AssertionError now
+_HTMLParseError = getattr(html.parser, 'HTMLParseError', AssertionError)
+
+
 class _MetaHTMLParser(html.parser.HTMLParser):
     """Parse given data for <meta http-equiv="content-type">."""
 
@@ -68,7 +73,8 @@ class _MetaHTMLParser(html.parser.HTMLParser):
 
     def handle_starttag(self, tag, attrs):
         if tag == 'meta' and not self.content_type:
-            atts = {a.lower(): v.lower() for a, v in attrs}
+            # an attribute without a value is reported with the value None
+            atts = {a.lower(): (v or '').lower() for a, v in attrs}
             if atts.get('http-equiv', '').strip() == 'content-type':
                 self.content_type = atts.get('content')
 
@@ -310,7 +316,7 @@ def getMetaInfo(text, log=None):
 
     try:
         p.feed(_chars(text))
-    except html.parser.HTMLParseError:
+    except (_HTMLParseError, AssertionError):
         pass
 
     if p.content_type:
